@@ -1050,8 +1050,8 @@ impl Shadow {
         self.note_births(seg);
     }
 
-    /// the DBIRTH half of "complete birth sequence", checked at the end of a step with exactly
-    /// one accepted node birth that is a rebirth and is the last NBIRTH of the step
+    /// the DBIRTH half of "complete birth sequence", checked at the end of a step whose last
+    /// NBIRTH is an accepted rebirth: one DBIRTH per enabled device, each once, numbered 1..k
     fn check_dbirths(&self, evs: &[Ev], op: &str, out: &mut Out) {
         let want: Vec<String> = self.devs.iter().enumerate().filter(|(_, d)| d.registered && d.enabled).map(|(k, _)| format!("d{}", k)).collect();
         let mut got: Vec<String> = vec![];
@@ -1195,13 +1195,26 @@ impl Shadow {
         if pos < node_evs.len() && !self.simple {
             out.fail("C15:no-spurious-delivery", "resolve", format!("{}: node-side events not caused by a queued command: {}", op, canon(&node_evs[pos..])));
         }
-        if accepted_births == 1 && nbirths_in_step == 0 && ok {
-            // the resolved birth alone: its DBIRTHs are C04's business, but they must exist
-            out.count("oracle:resolved-birth-only");
-        } else if accepted_births == 1 && nbirths_in_step == 1 && !ok && self.birthed {
-            self.check_dbirths(evs, op, out);
-        } else if nbirths_in_step > 0 {
-            out.count("oracle:multi-birth-step-dbirths-not-attributed");
+        let _ = accepted_births;
+        if nbirths_in_step == 0 {
+            if ok {
+                // the resolved birth alone: its DBIRTHs are C04's business
+                out.count("oracle:resolved-birth-only");
+            }
+        } else {
+            // node births are numbered and a device acts on a birth notification only while the
+            // node birth it belongs to is the current one: whatever births the step contained,
+            // the last rebirth decides - accepted: exactly one DBIRTH per enabled device,
+            // numbered 1..k; rejected / parked: none
+            out.count("oracle:resolve-step-with-rebirth");
+            match evs.iter().filter(|e| matches!(e, Ev::NBirth { .. })).last() {
+                Some(Ev::NBirth { status: Status::Accepted, .. }) => self.check_dbirths(evs, op, out),
+                _ => {
+                    if evs.iter().any(|e| matches!(e, Ev::DBirth { .. })) {
+                        out.fail("C15:dbirth-after-nbirth", "nbirth-not-accepted", format!("{}: {}", op, canon(evs)));
+                    }
+                }
+            }
         }
         for e in evs {
             if let Ev::DBirth { dev, payload, .. } = e {
